@@ -27,3 +27,18 @@ package dtls
 //@ ensures c08-parked-record-isolated: result ==> cap(c.encryptedPackets[len(c.encryptedPackets)-1].data) == len(packet.data)
 //@ ensures unlocked: !held("Conn.lock")
 //@ end
+
+// [NOT CHECKED: the postconditions below discharge, but handleIncomingPacket calls six contracted callees whose
+//  preconditions (well-formedness after prepareIncomingPacket, record size, DTLS 1.2 environment) cannot be established
+//  from any precondition expressible here, so under the conditional rule nothing after those calls may be claimed.
+//  The repair 4b43560 is guarded by the demonstration known/C08_unparsable_epoch0_record_test.go.txt only.]
+// RFC 6347 4.1.2.7: an unprotected (epoch 0) record that cannot be parsed is dropped: no alert is queued and
+// the read loop gets no error (a fatal decode_error here let one spoofed datagram close the session).
+//   func Conn.handleIncomingPacket
+//   watch RecordLayer.Unmarshal Conn.prepareIncomingPacket
+//   requires args: wfConn(c) && !isNil(ctx)
+//   ensures c08-unparsable-unprotected-record-dropped: called("RecordLayer.Unmarshal") && retErr("RecordLayer.Unmarshal", 0) != nil
+//      && retAs("Conn.prepareIncomingPacket", 0, incomingPacketState{}).header != nil && retAs("Conn.prepareIncomingPacket", 0, incomingPacketState{}).header.Epoch == 0
+//      ==> result0.responseAlert == nil && result1 == nil
+//   ensures c08-empty-datagram-ignored: len(buf) == 0 ==> result0.responseAlert == nil && result1 == nil
+//   end
